@@ -42,6 +42,7 @@ type trafficOpts struct {
 	EndDisconnect bool
 	Will         bool
 	BigPayloads  bool
+	Overlap      bool // exchanges overlap: the client pipelines 2-4 packets, the broker answers 0/1 ms/1 s late
 }
 
 var defaultNames = []string{"a/b", "a/c", "x", "ab", "cd", "pre/one", "pre/two", "pre/cl3", "pre/three", "long/topic/name/with/levels", "a/b/c",
@@ -79,6 +80,10 @@ func runTraffic(t *testing.T, c *rt.Case, rng *rand.Rand, o trafficOpts) *GWRun 
 		return req
 	}
 	bcfg := world.BrokerCfg{FirstID: 30000, SubGrant: grant}
+	if o.Overlap {
+		bcfg.AckDelay = []time.Duration{0, time.Millisecond, time.Second}[rng.Intn(3)]
+		bcfg.PingrespDelay = bcfg.AckDelay
+	}
 	g := &GWRun{Cfg: cfg, BCfg: bcfg, NSess: 1}
 	pre := toPredef(o.Predef)
 	bubble(t, func() {
@@ -106,10 +111,31 @@ func runTraffic(t *testing.T, c *rt.Case, rng *rand.Rand, o trafficOpts) *GWRun 
 			}
 		}
 		say := func(f string, a ...interface{}) { g.Script = append(g.Script, fmt.Sprintf(f, a...)) }
+		pipelined := 0
 		send := func(p *snref.Pkt) {
+			if o.Overlap && pipelined > 0 && (model.Risky(p) || p.Type == snref.DISCONNECT || p.Type == snref.CONNECT) {
+				// a packet that may end the session is sent only when everything before it has been handled
+				pipelined = 0
+				sync()
+			}
 			say("client sends %s", p)
 			s.SNSendP(p)
+			// a packet that may end the session (or any packet whose IDs the model cannot vouch for yet)
+			// is never followed by a pipelined one: what comes after a session's end is not traffic
+			if o.Overlap && pipelined < 3 && rng.Intn(2) == 0 && !model.Risky(p) && p.Type != snref.DISCONNECT && p.Type != snref.CONNECT {
+				// no quiescence: the next packet follows while this one is still being handled
+				pipelined++
+				g.Script[len(g.Script)-1] += " (pipelined)"
+				return
+			}
+			pipelined = 0
 			sync()
+			if o.Overlap && rng.Intn(4) == 0 {
+				d := []time.Duration{time.Millisecond, 500 * time.Millisecond, time.Second}[rng.Intn(3)]
+				say("advance %v", d)
+				time.Sleep(d)
+				sync()
+			}
 		}
 		send(snref.Connect(o.ClientID, uint16(10+rng.Intn(100)), o.Will, rng.Intn(2) == 0))
 		mid := uint16(1)
@@ -128,8 +154,8 @@ func runTraffic(t *testing.T, c *rt.Case, rng *rand.Rand, o trafficOpts) *GWRun 
 				sizes := []int{0, 1, 2, 246, 247, 248, 249, 250, 251, 252, 1000, 7168}
 				n := sizes[rng.Intn(len(sizes))]
 				if n < len(p) {
-					if n == 0 && rng.Intn(3) == 0 {
-						return nil
+					if n == 0 && rng.Intn(3) == 0 && !o.Overlap {
+						return nil // (overlapping traffic is matched by payload tag: never empty there)
 					}
 					return p
 				}
@@ -164,6 +190,9 @@ func runTraffic(t *testing.T, c *rt.Case, rng *rand.Rand, o trafficOpts) *GWRun 
 			case r < 8:
 				n := []string{"ab", "cd", "zz", "a/"}[rng.Intn(4)]
 				return 2, snref.ShortID(n)
+			case o.Hostile && rng.Intn(3) == 0:
+				// short names with a wildcard character in them
+				return 2, snref.ShortID([]string{"a+", "#b", "+#", "/+"}[rng.Intn(4)])
 			case o.Hostile:
 				return uint8(rng.Intn(4)), []uint16{0, 0xFFFF, 77, 1, 2}[rng.Intn(5)]
 			}
@@ -175,7 +204,7 @@ func runTraffic(t *testing.T, c *rt.Case, rng *rand.Rand, o trafficOpts) *GWRun 
 			case 0, 1:
 				n := pickName()
 				if o.Hostile && rng.Intn(5) == 0 {
-					n = []string{"a/#", "+", "a/+/c", "nul\x00name"}[rng.Intn(4)]
+					n = []string{"a/#", "+", "a/+/c", "nul\x00name", "room+1/temp", "x#", "a/b#c"}[rng.Intn(7)]
 				}
 				send(snref.Register(0, nextMid(), n))
 			case 2, 3:
@@ -247,6 +276,11 @@ func runTraffic(t *testing.T, c *rt.Case, rng *rand.Rand, o trafficOpts) *GWRun 
 				sync()
 			}
 		}
+		if o.Overlap {
+			// let the late answers arrive before the session is ended
+			time.Sleep(3 * time.Second)
+			sync()
+		}
 		if o.EndDisconnect && !s.Ended() {
 			send(snref.Disconnect())
 		}
@@ -280,6 +314,94 @@ var wlTrafficClean = mkTrafficWL("traffic-clean", 3000, 60000, func(rng *rand.Ra
 		BrokerPub: true, ClientPub: true, Subs: true, GrantPolicy: rng.Intn(3), EndDisconnect: rng.Intn(2) == 0, Will: rng.Intn(4) == 0}
 })
 
+// Well-behaved traffic whose exchanges overlap (pipelined client packets, late broker answers).
+var wlTrafficOverlap = mkTrafficWL("traffic-overlap", 1500, 30000, func(rng *rand.Rand) trafficOpts {
+	return trafficOpts{Steps: 6 + rng.Intn(20), Names: defaultNames, ClientID: []string{"cl", "other", "nobody"}[rng.Intn(3)], Predef: trafficPredef(rng),
+		BrokerPub: true, ClientPub: true, Subs: true, GrantPolicy: rng.Intn(3), EndDisconnect: rng.Intn(2) == 0, Will: rng.Intn(4) == 0, Overlap: true}
+})
+
+// wlSubscribeOverlap: 2-3 SUBSCRIBEs of one topic name (and optionally a REGISTER of it) pipelined while
+// the broker answers 1 ms late, every accept/refuse combination; afterwards the client publishes
+// with the topic ID it was given and the broker publishes on the name. Enumerated (36 cases).
+var wlSubscribeOverlap = Workload{
+	Name: "subscribe-overlap",
+	N:    func(r *rt.Run) int { return 36 },
+	Run: func(t *testing.T, c *rt.Case, i int, rng *rand.Rand) *GWRun {
+		regPos := i % 3 // 0 no REGISTER, 1 after the first SUBSCRIBE, 2 after the last
+		j := i / 3      // 0..11: k=2 -> 4 combos, k=3 -> 8 combos
+		k, combo := 2, j
+		if j >= 4 {
+			k, combo = 3, j-4
+		}
+		name := "s/ov"
+		cfg := world.GWConfig{Predefined: stdPredefined(), RetryDelay: 10 * time.Second, RetryCount: 1}
+		nSub := 0
+		bcfg := world.BrokerCfg{FirstID: 30000, AckDelay: time.Millisecond, SubGrant: func(f string, req byte) byte {
+			if f != name {
+				return req
+			}
+			refuse := combo>>(uint(nSub))&1 == 1
+			nSub++
+			if refuse {
+				return 0x80
+			}
+			return req
+		}}
+		g := &GWRun{Cfg: cfg, BCfg: bcfg, NSess: 1}
+		say := func(f string, a ...interface{}) { g.Script = append(g.Script, fmt.Sprintf(f, a...)) }
+		bubble(t, func() {
+			w := world.New(cfg)
+			b := world.NewBroker(bcfg)
+			s := w.NewSession(peerHandler(PeerOpts{}), b.Handler())
+			synctest.Wait()
+			send := func(p *snref.Pkt) { say("client sends %s", p); s.SNSendP(p) }
+			send(snref.Connect("cl", 60, false, true))
+			synctest.Wait()
+			mid := uint16(1)
+			for n := 0; n < k; n++ {
+				mid++
+				send(snref.SubscribeName(mid, 1, name)) // pipelined: no quiescence in between
+				if (regPos == 1 && n == 0) || (regPos == 2 && n == k-1) {
+					mid++
+					send(snref.Register(0, mid, name))
+				}
+			}
+			time.Sleep(10 * time.Millisecond)
+			synctest.Wait()
+			// the topic ID the client was given: by an accepted SUBACK or by REGACK
+			var tid uint16
+			for _, e := range w.Tr.Events() {
+				if e.Kind == world.SNOut {
+					if p, _ := snref.ParseLoose(e.B); p != nil && p.RC == 0 && (p.Type == snref.SUBACK || p.Type == snref.REGACK) && p.TopicID != 0 {
+						tid = p.TopicID
+					}
+				}
+			}
+			if tid != 0 {
+				mid++
+				send(snref.Publish(0, tid, mid, 1, false, false, []byte(fmt.Sprintf("c%d-up|", c.I))))
+				synctest.Wait()
+			}
+			say("broker publishes on %q", name)
+			b.Publish(s, name, 1, false, []byte(fmt.Sprintf("c%d-down|", c.I)))
+			time.Sleep(10 * time.Millisecond)
+			synctest.Wait()
+			send(snref.Pingreq(""))
+			time.Sleep(time.Second)
+			synctest.Wait()
+			w.Tr.Add(0, world.Note, nil, "teardown")
+			w.Finish()
+			synctest.Wait()
+			g.Evs = w.Tr.Events()
+			handleLeaks(c, g)
+			w.WaitHarness()
+		})
+		g.Desc = fmt.Sprintf("subscribe-overlap k=%d refuse-mask=%b register-position=%d", k, combo, regPos)
+		g.Items, g.RestOut = g.Session(0)
+		return g
+	},
+}
+
 // Hostile but decodable traffic.
 var wlTrafficHostile = mkTrafficWL("traffic-hostile", 3000, 60000, func(rng *rand.Rand) trafficOpts {
 	return trafficOpts{Steps: 4 + rng.Intn(14), Names: defaultNames, ClientID: []string{"cl", "other"}[rng.Intn(2)], Predef: trafficPredef(rng),
@@ -294,7 +416,7 @@ var wlTrafficBroker = mkTrafficWL("traffic-broker", 2000, 40000, func(rng *rand.
 
 func TestC01(t *testing.T) {
 	r := rt.Start(t, "C01")
-	runWorkloads(t, r, []Workload{wlTrafficClean, wlTrafficHostile}, func(g *GWRun) ([]monitors.V, int) {
+	runWorkloads(t, r, []Workload{wlTrafficClean, wlTrafficHostile, wlTrafficOverlap, wlSubscribeOverlap}, func(g *GWRun) ([]monitors.V, int) {
 		return monitors.C01(g.Items, toPredef(g.Cfg.Predefined))
 	})
 	r.Finish(trafficRule+" Oracle C01: in-order one-to-one match between accepted client PUBLISHes and the MQTT PUBLISHes written to the broker (topic from the reference registration model, payload, retain, DUP, QoS with -1 -> 0, message ID); a PUBLISH whose ID denotes nothing (or reserved topic-ID type 3) must not appear at the broker.", nil)
@@ -302,7 +424,7 @@ func TestC01(t *testing.T) {
 
 func TestC02(t *testing.T) {
 	r := rt.Start(t, "C02")
-	runWorkloads(t, r, []Workload{wlTrafficBroker, wlTrafficClean}, func(g *GWRun) ([]monitors.V, int) {
+	runWorkloads(t, r, []Workload{wlTrafficBroker, wlTrafficClean, wlSubscribeOverlap}, func(g *GWRun) ([]monitors.V, int) {
 		return monitors.C02(g.Items, toPredef(g.Cfg.Predefined))
 	})
 	r.Finish(trafficRule+" Oracle C02: every broker PUBLISH injected while the client is active is delivered exactly once (DUP retransmissions aside) with the same payload/QoS/retain/message ID under a (type, ID) that the client's own knowledge - short decoding, shared predefined map, REGISTERs it accepted, SUBACK/REGACK IDs - resolves to the broker's topic.", nil)
@@ -310,7 +432,7 @@ func TestC02(t *testing.T) {
 
 func TestC03(t *testing.T) {
 	r := rt.Start(t, "C03")
-	runWorkloads(t, r, []Workload{wlTrafficClean, wlTrafficBroker}, func(g *GWRun) ([]monitors.V, int) {
+	runWorkloads(t, r, []Workload{wlTrafficClean, wlTrafficBroker, wlTrafficOverlap}, func(g *GWRun) ([]monitors.V, int) {
 		return monitors.C03(g.Items, toPredef(g.Cfg.Predefined))
 	})
 	r.Finish(trafficRule+" Oracle C03: per packet type, the sequences on the two links correspond one-to-one in order with equal message IDs (SUBSCRIBE/UNSUBSCRIBE: resolved filter and requested QoS; SUBACK: accepted iff broker code 0-2, granted QoS, topic ID by filter kind).", nil)
